@@ -204,6 +204,10 @@ pub enum TileSizeError {
     /// Tile size list must not be empty
     #[error("tile size list must not be empty")]
     EmptyTileSizes,
+
+    /// Tile sizes must be positive
+    #[error("tile sizes must be greater than zero")]
+    ZeroTileSize,
 }
 
 impl TileSizes {
@@ -211,6 +215,9 @@ impl TileSizes {
     pub fn new(sizes: &[usize]) -> Result<Self, TileSizeError> {
         if sizes.is_empty() {
             return Err(TileSizeError::EmptyTileSizes);
+        }
+        if sizes.contains(&0) {
+            return Err(TileSizeError::ZeroTileSize);
         }
         for i in 1..sizes.len() {
             if sizes[i - 1] <= sizes[i] {
